@@ -168,7 +168,30 @@ fn build_ext(comb: &str, kids: Vec<Child>) -> PollFn {
         _ => panic!("no two-argument method for {comb}"),
     }
 }
+/// nests: the leaves are split into two halves, each half feeds an inner combinator, the two inner combinators feed the outer one.
+/// There is no model for these: the leaf-level monitors (wake-ups, concurrency) are evaluated on the trace.
+#[cfg(any(feature = "fc-std", feature = "fc-alloc"))]
+fn build_nest(comb: &str, kids: Vec<Child>) -> PollFn {
+    let n = kids.len(); let mut a = kids; let b = a.split_off(n / 2);
+    fn futs(v: Vec<Child>) -> Vec<Fut> { v.into_iter().map(Fut).collect() }
+    fn strs(v: Vec<Child>) -> Vec<Str> { v.into_iter().map(Str).collect() }
+    let flat = |o: Vec<Vec<Val>>| list("R", &o.into_iter().flatten().map(take).collect::<Vec<u64>>());
+    match comb {
+        "nest_jj" => fut_fn(vec![futs(a).join(), futs(b).join()].join(), flat),
+        "nest_jr" => fut_fn(vec![futs(a).race(), futs(b).race()].join(), |o| list("R", &o.into_vals())),
+        "nest_rj" => fut_fn(vec![futs(a).join(), futs(b).join()].race(), |o| list("R", &o.into_vals())),
+        "nest_jt" => fut_fn(futures_concurrency::future::FutureExt::join(futs(a).join(), futs(b).join()), move |(x, y): (Vec<Val>, Vec<Val>)| flat(vec![x, y])),
+        "nest_mm" => str_fn(vec![strs(a).merge(), strs(b).merge()].merge(), |o| list("S", &o.into_vals())),
+        "nest_cm" => str_fn(vec![strs(a).merge(), strs(b).merge()].chain(), |o| list("S", &o.into_vals())),
+        "nest_zm" => str_fn(vec![strs(a).merge(), strs(b).merge()].zip(), |o| list("S", &o.into_vals())),
+        "nest_gj" => { let mut g = FutureGroup::new(); g.insert(futs(a).join()); g.insert(futs(b).join()); str_fn(g, |o: Vec<Val>| list("S", &o.into_vals())) }
+        "nest_gm" => { let mut g = StreamGroup::new(); g.insert(strs(a).merge()); g.insert(strs(b).merge()); str_fn(g, |o: Val| list("S", &o.into_vals())) }
+        _ => panic!("nest {comb}"),
+    }
+}
 fn build(comb: &str, cont: &str, kids: Vec<Child>) -> PollFn {
+    #[cfg(any(feature = "fc-std", feature = "fc-alloc"))]
+    if comb.starts_with("nest_") { return build_nest(comb, kids); }
     if cont == "ext" && !comb.starts_with("wait_") { return build_ext(comb, kids); }
     match comb {
         "join" => { let v: Vec<Fut> = kids.into_iter().map(Fut).collect(); conts!(zero cont, v, join, fut_fn, |o| list("R", &o.into_vals())) }
